@@ -10,6 +10,15 @@ DONE = {
  "C02": ("property-based invariant testing (proptest, sharded): positivity and tiling of the box, three integration routes",
          "Exploration: generated point sets up to 1500 (quick) / 4000 (thorough) generators over all families, dimensionalities, boundary kinds, aspect ratios to 2^14 and offsets to 2^30; oracle = a-priori identity sum(V_i) = box measure with a rounding bound that does not use the library's faces.",
          "Trusted: tolerance model (eps_pos * kappa * surface of the safety ball + snapping uncertainty of close pairs).", "5 C02"),
+ "C03": ("property-based all-pairs reciprocity check on the non-symmetric face integrals + structural check of the compact face list (proptest, sharded)",
+         "Exploration: generated inputs x masks up to n = 600/1500; every face seen from cell i is joined with the face seen from cell j (exact negated shift, equal area / shifted centroid up to rounding, opposite plane normals); storage multiplicity in the compact tessellation; antisymmetric flux cancellation.",
+         "Trusted: tolerance from the library's own conditioning (eps_pos * kappa + snapping of close pairs). Exempt: pairs involving an ill-conditioned cell, 1D/2D at coordinates > 1e10, unresolvable arrangements.", "5 C03"),
+ "C04": ("property-based invariant testing: orientation of every stored normal, wall normals, centroid on the bisector, closure and divergence identities per cell (proptest, sharded)",
+         "Exploration: generated inputs x masks up to n = 400/1500, all dimensionalities; identities hold for every constructed cell of every generated tessellation.",
+         "Trusted: tolerance from the library's own conditioning; negligible faces (area <= 1e-9 of the face scale) are left out of the sums with a bound on their contribution. Same exemptions as C03.", "5 C04"),
+ "C06": ("property-based differential testing (periodic vs the library's non-periodic mode on the 3^d-fold replicated input) + metamorphic translation + structural shift checks (proptest, sharded)",
+         "Exploration: periodic inputs n = 1..24 (n = 1, 2 emphasised) in all dimensionalities and box shapes, random and seam-aligned translations.",
+         "Trusted: the non-periodic mode as reference (its own correctness is C01); tolerance from the library's own conditioning.", "5 C06"),
  "C07": ("property-based differential testing (partial vs full build) + exhaustive enumeration of all 2^n masks for small inputs",
          "Exploration with an exhaustively enumerated sub-space: random (input, mask) pairs up to n = 200/400 and ALL 2^n masks of small inputs (n <= 6 quick, <= 10 thorough); oracle = the full build of the same input (bitwise for cell values, set equality for faces, bookkeeping rules for selected/unselected faces).",
          "Trusted: the full build as the reference for the partial one (its own correctness is C01).", "5 C07"),
